@@ -125,6 +125,16 @@ impl ServerConfig {
             )));
         }
 
+        // The CDN strings are emitted as BPSV fields, which have no escaping
+        for (name, value) in [("cdn-hosts", &self.cdn_hosts), ("cdn-path", &self.cdn_path)] {
+            if value.contains(['|', '\n', '\r']) {
+                return Err(ConfigError::InvalidValue {
+                    name: name.to_string(),
+                    reason: format!("'{value}' contains a BPSV separator ('|' or a line break)"),
+                });
+            }
+        }
+
         // Validate TLS configuration
         match (&self.tls_cert, &self.tls_key) {
             (Some(_cert), None) => {
